@@ -1035,3 +1035,35 @@ pub fn flags_truncation_packets(mut f: impl FnMut(u64, &[u8])) -> u64 {
     }
     n
 }
+
+/// Responses with a ROOT question name, every record count at 65535 (or 2), and every tail of up to 8 bytes
+/// over {00, 01, 04, 0c, c0}: owners that point at the root label, at the question's fixed part, at
+/// themselves; the question type is one that admits empty data (TXT, unknown) or not (A). A parser whose
+/// cursor can be sent back into bytes it has already read visits records without consuming input here.
+pub fn root_pointer_packets(max_tail: usize, mut f: impl FnMut(u64, &[u8])) -> u64 {
+    let alpha: [u8; 5] = [0x00, 0x01, 0x04, 0x0c, 0xc0];
+    let tails = Tails { alphabet: &alpha, max_len: max_tail };
+    let n = tails.count();
+    let mut g = 0u64;
+    let mut tail = vec![];
+    let mut buf: Vec<u8> = vec![];
+    for counts in [0xffffu16, 2] {
+        for qtype in [16u16, 99, 1] {
+            for i in 0..n {
+                tails.get(i, &mut tail);
+                buf.clear();
+                buf.extend_from_slice(&[0, 0, 0x80, 0, 0, 1]);
+                for _ in 0..3 {
+                    buf.extend_from_slice(&counts.to_be_bytes());
+                }
+                buf.push(0);
+                buf.extend_from_slice(&qtype.to_be_bytes());
+                buf.extend_from_slice(&[0, 1]);
+                buf.extend_from_slice(&tail);
+                f(g, &buf);
+                g += 1;
+            }
+        }
+    }
+    g
+}
